@@ -58,6 +58,19 @@ func checkProve(c proveCase) (h.Info, error) {
 	if !bytes.Equal(store[:64], priv) || !bytes.Equal(store[64:], bytes.Repeat([]byte{0x5a}, len(c.Alpha)+40)) {
 		return info, fmt.Errorf("Prove wrote into or behind the caller's private key slice")
 	}
+	// the key pair as GenerateKey hands it out (the seed read from the caller's reader); the two results are
+	// the caller's to use: the public key is then overwritten (e.g. to make a wrong key for a negative test)
+	// and the private key must still prove for the seed
+	if gpub, gpriv, gerr := vrf.GenerateKey(bytes.NewReader(append(append([]byte{}, c.Seed...), 1, 2, 3))); gerr != nil || !bytes.Equal(gpub, wantPK) {
+		return info, fmt.Errorf("GenerateKey(reader of the seed %x) = public key %x, %v; reference %x", []byte(c.Seed), []byte(gpub), gerr, wantPK)
+	} else {
+		for i := range gpub {
+			gpub[i] ^= 0x3c
+		}
+		if p1 := vrf.Prove(gpriv, append([]byte{}, c.Alpha...)).Bytes(); !bytes.Equal(p1, wantPi) {
+			return info, fmt.Errorf("Prove with the private key from GenerateKey(reader of the seed %x), after the caller overwrote the public key slice returned next to it, = %x; RFC 9381 reference for the seed %x", []byte(c.Seed), p1, wantPi)
+		}
+	}
 	proof := vrf.Prove(priv, append([]byte{}, c.Alpha...))
 	pi := proof.Bytes()
 	if !bytes.Equal(pi, wantPi) {
